@@ -233,6 +233,7 @@ TEMPLATES = {
     'enum_type': _T('TYPE\n  c : (red', ('opt', ', green'), ')', ('opt', ' := red'), ';\nEND_TYPE\n'),
     'struct_type': _T('TYPE\n  s : STRUCT\n    a : INT', ('opt', ' := 1'), ';\n', ('opt', '    q : BOOL := TRUE;\n'), '  END_STRUCT;\nEND_TYPE\n'),
     'string_type': _T('TYPE\n  st : ', ('alt', ['STRING', 'WSTRING']), ('opt', '[10]'), ';\nEND_TYPE\n'),
+    'located_variables': _T('PROGRAM p\nVAR\n  v AT %', ('alt', ['I', 'Q', 'M']), ('alt', ['', 'X', 'B', 'W', 'D', 'L']), ('alt', ['1', '1.2', '10.20']), ' : ', ('alt', ['BOOL', 'INT']), ';\nEND_VAR\nEND_PROGRAM\n'),
     'enum_alias_type': _T('TYPE\n  c : (red, green) := red;\n  d : ', ('alt', ['c', '(red, green)', '(green, red)']), ('alt', ['', ' := red', ' := green']), ';\nEND_TYPE\n'),
     'alias_type': _T('TYPE\n  al : ', ('alt', ['INT', 'REAL', 'other']), ('opt', ' := 1'), ';\nEND_TYPE\n'),
     'var_block': _T('FUNCTION_BLOCK fb\n', ('alt', ['VAR', 'VAR_INPUT', 'VAR_OUTPUT', 'VAR_IN_OUT', 'VAR_EXTERNAL', 'VAR_TEMP']), ('alt', ['', ' RETAIN', ' CONSTANT', ' NON_RETAIN']), '\n  x : INT', ('opt', ' := 5'), ';\nEND_VAR\nEND_FUNCTION_BLOCK\n'),
